@@ -6,7 +6,7 @@ import ast
 import os
 import sys
 
-from hsa.core import AnalysisError, Repo, Report, body_walk, call_name, dotted, kwarg, last_attr, src
+from hsa.core import AnalysisError, Repo, Report, body_walk, call_name, dotted, find_assign, kwarg, last_attr, src
 from hsa.flow import Flow, function_exits, normal_exit_states
 from hsa.rules.common import class_methods, guard_set, method_calls
 
@@ -178,6 +178,26 @@ def r17_4_cancel_every_state(repo: Repo, rep: Report):
     t = src(cancel)
     ok = "children(recursive=True)" in t and "process.terminate()" in t and "process.kill()" in t
     rep.check("R17.4", ok, m, cancel, "cancel: terminate process tree, grace period, kill survivors", "cancel must stop the whole process tree")
+    # cancel() runs inside the worker's `finally` before set_result: it must not raise.
+    waits = [c for c in body_walk(cancel) if isinstance(c, ast.Call) and last_attr(c) == "wait" and kwarg(c, "timeout") is not None]
+    for wcall in waits:
+        sup = None
+        for a in m.ancestors(wcall):
+            if isinstance(a, ast.With):
+                for it in a.items:
+                    if isinstance(it.context_expr, ast.Call) and src(it.context_expr.func) in ("contextlib.suppress", "suppress"):
+                        sup = [src(x) for x in it.context_expr.args]
+            if isinstance(a, ast.Try) and any(h.type is not None and "psutil.TimeoutExpired" in src(h.type) for h in a.handlers):
+                sup = ["psutil.TimeoutExpired"]
+        recv = src(wcall.func.value)
+        is_psutil = any("psutil.Process(" in src(v) for v in find_assign(cancel, recv))
+        need = "psutil.TimeoutExpired" if is_psutil else "subprocess.TimeoutExpired"
+        ok = sup is not None and need in sup
+        rep.check("R17.4", ok, m, wcall, f"{src(wcall)} suppresses {sup}", f"{recv}.wait(timeout=...) raises {need} when the solver survives the grace period; unsuppressed it escapes cancel() inside the worker's finally, set_result is never reached and result()/shutdown(wait=True) block forever")
+    for c in body_walk(cancel):
+        if isinstance(c, ast.Call) and isinstance(c.func, ast.Attribute) and c.func.attr in ("terminate", "kill", "children") :
+            guarded = any(isinstance(a, ast.Try) and any(h.type is not None and "NoSuchProcess" in src(h.type) for h in a.handlers) for a in m.ancestors(c))
+            rep.check("R17.4", guarded, m, c, f"{src(c)} inside try/except psutil.NoSuchProcess", "psutil calls on a process that already exited raise NoSuchProcess; unguarded it escapes cancel()")
     _, isr = repo.fn("processes.PopenFuture.is_running")
     ok = "self.process and self.process.poll() is None" in src(isr)
     rep.check("R17.4", ok, m, isr, "is_running: process exists and poll() is None", "is_running must reflect the OS process state")
